@@ -16,7 +16,7 @@ from drv_vec import Fails, attempt                        # noqa: E402
 
 TEXTS = {
     "blank": [""], "spaces": [" ", "   ", "\t"], "int": ["12", "-7", "0", "+3", "007"], "padint": [" 12 ", "  -4", "5  "],
-    "float": ["1.5", "-0.25", "1e3", ".5", "3."], "text": ["abc", "N/A", "été", "x y"], "quoted": ["a,b", 'say "hi"', "two\nlines", "semi;colon", "tab\there", "pipe|x"],
+    "float": ["1.5", "-0.25", "1e3", ".5", "3."], "text": ["abc", "N/A", "été", "x y"], "quoted": ["a,b", 'say "hi"', "two\nlines", "semi;colon", "tab\there", "pipe|x", "win\r\nlines", "mac\rline", "x\r\n"],
     "numlike": ["1_000", "0x10", "nan", "inf", "1e", "--1", "1,5", "١٢", "Infinity", "1e400"],
 }
 
@@ -107,6 +107,7 @@ def replay(cases_path, out_path):
     F, mon, ex = Fails(), Monitor(), 0
     delims = [",", ";", "\t", "|"]
     for n, c in enumerate(cases):
+        n = c.get("_n", n)
         pick = lambda cls, k: TEXTS[cls][(n + k) % len(TEXTS[cls])]      # noqa: E731
         recs = c["records"]
         delimiter = delims[n % 4]
